@@ -5,6 +5,7 @@ import (
 	"sort"
 	"strings"
 
+	plrt "github.com/GuanceCloud/platypus/pkg/engine/runtime"
 	"github.com/GuanceCloud/platypus/pkg/inimpl/guancecloud/input"
 
 	"verif/internal/drive"
@@ -216,3 +217,5 @@ func compareRun(real drive.Outcome, model ref.Outcome, o cmpOpts) *runCmp {
 	}
 	return nil
 }
+
+type scriptT = plrt.Script
